@@ -1,0 +1,577 @@
+//! Verification hooks (compiled only with `--cfg gamedig_verif`).
+//!
+//! Nothing in here is part of the library: with the guard off this file is not
+//! even parsed. With the guard on it provides
+//!  * re-exports of crate-private items for an out-of-tree harness crate,
+//!  * a model of the diagnostic payload of `GDError` (carries nothing),
+//!  * a model of the `std::net` surface used by `socket.rs` (scripted replies,
+//!    send log, recorded timeouts, injectable faults),
+//!  * an association-list model of `HashMap` / `HashSet`.
+
+pub use crate::buffer::{
+    Buffer,
+    BufferRead,
+    StringDecoder,
+    SwitchEndian,
+    Utf16Decoder,
+    Utf8Decoder,
+    Utf8LengthPrefixedDecoder,
+};
+pub use crate::socket::{Socket, TcpSocket, UdpSocket};
+pub use crate::utils::{error_by_expected_size, retry_on_timeout, u8_lower_upper};
+
+/// Model of the diagnostic payload of `GDError`: carries nothing, drops
+/// nothing. The error *kind* is untouched.
+#[derive(Debug)]
+pub struct ErrorSource;
+
+impl<E: std::fmt::Display> From<E> for ErrorSource {
+    fn from(e: E) -> Self {
+        core::mem::forget(e);
+        ErrorSource
+    }
+}
+
+pub mod backtrace {
+    #[derive(Debug)]
+    pub struct Backtrace;
+
+    impl Backtrace {
+        pub fn capture() -> Self { Backtrace }
+    }
+}
+
+/// Model of the `std::net` surface that `socket.rs` uses.
+///
+/// A single global [`World`](net::World) plays the role of the network and the
+/// remote peer: replies are taken from a script, everything sent is logged.
+pub mod net {
+    use std::io;
+    use std::net::SocketAddr;
+    use std::time::Duration;
+
+    pub const MAX_EVENTS: usize = 8;
+    pub const MAX_SENDS: usize = 12;
+
+    /// What the next receive call observes.
+    pub enum Event {
+        /// A datagram (UDP) or everything the stream yields until EOF (TCP).
+        Data(Vec<u8>),
+        /// Nothing arrives before the read timeout.
+        Timeout,
+    }
+
+    pub struct World {
+        pub script: [Option<Event>; MAX_EVENTS],
+        pub next_event: usize,
+        /// After the script is exhausted: `false` = silence (timeout), `true` =
+        /// orderly end of stream (TCP only; UDP is always silence).
+        pub eof_after_script: bool,
+
+        pub n_sends: usize,
+        pub sends: [Option<(SocketAddr, Vec<u8>)>; MAX_SENDS],
+        /// `send_fault[i]`: the i-th send (0-based, counted over the whole
+        /// run) fails with a timeout instead of being delivered.
+        pub send_fault: [bool; MAX_SENDS],
+        /// The connection attempt fails (TCP).
+        pub connect_fault: bool,
+
+        pub n_recvs: usize,
+        pub sockets_opened: usize,
+
+        /// Timeouts recorded for the most recently created socket.
+        pub read_timeout: Option<Option<Duration>>,
+        pub write_timeout: Option<Option<Duration>>,
+        pub connect_timeout: Option<Option<Duration>>,
+        pub connect_addr: Option<SocketAddr>,
+        /// Set when any socket performed I/O before both its read and write
+        /// timeouts had been set.
+        pub io_before_timeouts: bool,
+        /// When set, every socket is checked at its first I/O against these
+        /// values; a mismatch sets `timeout_mismatch`.
+        pub expect_rw: Option<(Option<Duration>, Option<Duration>)>,
+        pub timeout_mismatch: bool,
+    }
+
+    const NO_EVENT: Option<Event> = None;
+    const NO_SEND: Option<(SocketAddr, Vec<u8>)> = None;
+
+    pub static mut WORLD: World = World {
+        script: [NO_EVENT; MAX_EVENTS],
+        next_event: 0,
+        eof_after_script: false,
+        n_sends: 0,
+        sends: [NO_SEND; MAX_SENDS],
+        send_fault: [false; MAX_SENDS],
+        connect_fault: false,
+        n_recvs: 0,
+        sockets_opened: 0,
+        read_timeout: None,
+        write_timeout: None,
+        connect_timeout: None,
+        connect_addr: None,
+        io_before_timeouts: false,
+        expect_rw: None,
+        timeout_mismatch: false,
+    };
+
+    #[allow(static_mut_refs)]
+    pub fn world() -> &'static mut World { unsafe { &mut WORLD } }
+
+    impl World {
+        /// Forget everything (leaks on purpose: cheap for a model checker and
+        /// irrelevant natively).
+        pub fn reset(&mut self) {
+            let mut i = 0;
+            while i < MAX_EVENTS {
+                core::mem::forget(self.script[i].take());
+                i += 1;
+            }
+            let mut i = 0;
+            while i < MAX_SENDS {
+                core::mem::forget(self.sends[i].take());
+                self.send_fault[i] = false;
+                i += 1;
+            }
+            self.next_event = 0;
+            self.eof_after_script = false;
+            self.n_sends = 0;
+            self.connect_fault = false;
+            self.n_recvs = 0;
+            self.sockets_opened = 0;
+            self.read_timeout = None;
+            self.write_timeout = None;
+            self.connect_timeout = None;
+            self.connect_addr = None;
+            self.io_before_timeouts = false;
+            self.expect_rw = None;
+            self.timeout_mismatch = false;
+        }
+
+        pub fn push_data(&mut self, d: Vec<u8>) {
+            let mut i = 0;
+            while i < MAX_EVENTS {
+                if self.script[i].is_none() {
+                    self.script[i] = Some(Event::Data(d));
+                    return;
+                }
+                i += 1;
+            }
+            panic!("verif net model: script full");
+        }
+
+        pub fn push_timeout(&mut self) {
+            let mut i = 0;
+            while i < MAX_EVENTS {
+                if self.script[i].is_none() {
+                    self.script[i] = Some(Event::Timeout);
+                    return;
+                }
+                i += 1;
+            }
+            panic!("verif net model: script full");
+        }
+
+        fn new_socket(&mut self) {
+            self.sockets_opened += 1;
+            self.read_timeout = None;
+            self.write_timeout = None;
+        }
+
+        fn before_io(&mut self) {
+            match (self.read_timeout, self.write_timeout) {
+                (Some(r), Some(w)) => {
+                    if let Some((er, ew)) = self.expect_rw {
+                        if er != r || ew != w {
+                            self.timeout_mismatch = true;
+                        }
+                    }
+                }
+                _ => self.io_before_timeouts = true,
+            }
+        }
+
+        fn do_send(&mut self, data: &[u8], addr: SocketAddr) -> io::Result<usize> {
+            self.before_io();
+            let i = self.n_sends;
+            self.n_sends += 1;
+            if i < MAX_SENDS {
+                if self.send_fault[i] {
+                    return Err(io::ErrorKind::TimedOut.into());
+                }
+                self.sends[i] = Some((addr, data.to_vec()));
+            }
+            Ok(data.len())
+        }
+
+        fn next(&mut self) -> Option<Event> {
+            self.before_io();
+            self.n_recvs += 1;
+            if self.next_event >= MAX_EVENTS {
+                return None;
+            }
+            let i = self.next_event;
+            match self.script[i].take() {
+                None => None,
+                Some(e) => {
+                    self.next_event += 1;
+                    Some(e)
+                }
+            }
+        }
+    }
+
+    fn zero_timeout(d: Option<Duration>) -> bool {
+        match d {
+            Some(x) => x.is_zero(),
+            None => false,
+        }
+    }
+
+    pub struct UdpSocket {
+        _p: (),
+    }
+
+    impl UdpSocket {
+        pub fn bind(_addr: &str) -> io::Result<Self> {
+            world().new_socket();
+            Ok(Self { _p: () })
+        }
+
+        /// As documented for `std::net::UdpSocket::set_read_timeout`: a zero
+        /// duration is an `InvalidInput` error.
+        pub fn set_read_timeout(&self, d: Option<Duration>) -> io::Result<()> {
+            if zero_timeout(d) {
+                return Err(io::ErrorKind::InvalidInput.into());
+            }
+            world().read_timeout = Some(d);
+            Ok(())
+        }
+
+        pub fn set_write_timeout(&self, d: Option<Duration>) -> io::Result<()> {
+            if zero_timeout(d) {
+                return Err(io::ErrorKind::InvalidInput.into());
+            }
+            world().write_timeout = Some(d);
+            Ok(())
+        }
+
+        pub fn send_to(&self, data: &[u8], addr: SocketAddr) -> io::Result<usize> { world().do_send(data, addr) }
+
+        pub fn recv_from(&self, buf: &mut [u8]) -> io::Result<(usize, SocketAddr)> {
+            match world().next() {
+                None | Some(Event::Timeout) => Err(io::ErrorKind::WouldBlock.into()),
+                Some(Event::Data(d)) => {
+                    // a datagram longer than the buffer is truncated (recvfrom(2))
+                    let n = if d.len() < buf.len() { d.len() } else { buf.len() };
+                    buf[.. n].copy_from_slice(&d[.. n]);
+                    core::mem::forget(d);
+                    Ok((n, SocketAddr::from(([0, 0, 0, 0], 0))))
+                }
+            }
+        }
+
+        pub fn local_addr(&self) -> io::Result<SocketAddr> { Ok(SocketAddr::from(([0, 0, 0, 0], 0))) }
+    }
+
+    pub struct TcpStream {
+        peer: SocketAddr,
+    }
+
+    impl TcpStream {
+        fn open(a: &SocketAddr, d: Option<Duration>) -> io::Result<Self> {
+            let w = world();
+            w.new_socket();
+            w.connect_timeout = Some(d);
+            w.connect_addr = Some(*a);
+            if w.connect_fault {
+                return Err(io::ErrorKind::ConnectionRefused.into());
+            }
+            Ok(Self { peer: *a })
+        }
+
+        pub fn connect(a: &SocketAddr) -> io::Result<Self> { Self::open(a, None) }
+
+        /// As documented for `std::net::TcpStream::connect_timeout`: a zero
+        /// duration is an `InvalidInput` error.
+        pub fn connect_timeout(a: &SocketAddr, d: Duration) -> io::Result<Self> {
+            if d.is_zero() {
+                return Err(io::ErrorKind::InvalidInput.into());
+            }
+            Self::open(a, Some(d))
+        }
+
+        pub fn set_read_timeout(&self, d: Option<Duration>) -> io::Result<()> {
+            if zero_timeout(d) {
+                return Err(io::ErrorKind::InvalidInput.into());
+            }
+            world().read_timeout = Some(d);
+            Ok(())
+        }
+
+        pub fn set_write_timeout(&self, d: Option<Duration>) -> io::Result<()> {
+            if zero_timeout(d) {
+                return Err(io::ErrorKind::InvalidInput.into());
+            }
+            world().write_timeout = Some(d);
+            Ok(())
+        }
+
+        pub fn local_addr(&self) -> io::Result<SocketAddr> { Ok(SocketAddr::from(([0, 0, 0, 0], 0))) }
+    }
+
+    impl io::Write for TcpStream {
+        fn write(&mut self, data: &[u8]) -> io::Result<usize> { world().do_send(data, self.peer) }
+
+        fn flush(&mut self) -> io::Result<()> { Ok(()) }
+    }
+
+    impl io::Read for TcpStream {
+        fn read(&mut self, buf: &mut [u8]) -> io::Result<usize> {
+            match world().next() {
+                None => {
+                    if world().eof_after_script {
+                        Ok(0)
+                    } else {
+                        Err(io::ErrorKind::WouldBlock.into())
+                    }
+                }
+                Some(Event::Timeout) => Err(io::ErrorKind::WouldBlock.into()),
+                Some(Event::Data(d)) => {
+                    let n = if d.len() < buf.len() { d.len() } else { buf.len() };
+                    buf[.. n].copy_from_slice(&d[.. n]);
+                    core::mem::forget(d);
+                    Ok(n)
+                }
+            }
+        }
+
+        /// One script event = everything the peer writes before closing.
+        fn read_to_end(&mut self, buf: &mut Vec<u8>) -> io::Result<usize> {
+            match world().next() {
+                None => {
+                    if world().eof_after_script {
+                        Ok(0)
+                    } else {
+                        Err(io::ErrorKind::WouldBlock.into())
+                    }
+                }
+                Some(Event::Timeout) => Err(io::ErrorKind::WouldBlock.into()),
+                Some(Event::Data(d)) => {
+                    let n = d.len();
+                    buf.extend_from_slice(&d);
+                    core::mem::forget(d);
+                    Ok(n)
+                }
+            }
+        }
+    }
+
+    /// Only named by the unit tests of `socket.rs` (never built with the guard).
+    pub struct TcpListener;
+}
+
+/// Association-list model of the `std::collections` maps used by the parsers:
+/// same functional contract, insertion-ordered iteration, linear `==` lookup.
+pub mod collections {
+    use std::borrow::Borrow;
+
+    #[derive(Debug, Clone)]
+    pub struct HashMap<K, V> {
+        pub entries: Vec<(K, V)>,
+    }
+
+    impl<K, V> Default for HashMap<K, V> {
+        fn default() -> Self { Self { entries: Vec::new() } }
+    }
+
+    impl<K: Eq, V> HashMap<K, V> {
+        pub fn new() -> Self { Self { entries: Vec::new() } }
+
+        pub fn with_capacity(n: usize) -> Self {
+            Self {
+                entries: Vec::with_capacity(n),
+            }
+        }
+
+        pub fn len(&self) -> usize { self.entries.len() }
+
+        pub fn is_empty(&self) -> bool { self.entries.is_empty() }
+
+        fn index_of<Q: ?Sized + Eq>(&self, k: &Q) -> Option<usize>
+        where K: Borrow<Q> {
+            let mut i = 0;
+            while i < self.entries.len() {
+                if self.entries[i].0.borrow() == k {
+                    return Some(i);
+                }
+                i += 1;
+            }
+            None
+        }
+
+        pub fn insert(&mut self, k: K, v: V) -> Option<V> {
+            match self.index_of(&k) {
+                Some(i) => Some(core::mem::replace(&mut self.entries[i].1, v)),
+                None => {
+                    self.entries.push((k, v));
+                    None
+                }
+            }
+        }
+
+        pub fn get<Q: ?Sized + Eq>(&self, k: &Q) -> Option<&V>
+        where K: Borrow<Q> {
+            match self.index_of(k) {
+                Some(i) => Some(&self.entries[i].1),
+                None => None,
+            }
+        }
+
+        pub fn get_mut<Q: ?Sized + Eq>(&mut self, k: &Q) -> Option<&mut V>
+        where K: Borrow<Q> {
+            match self.index_of(k) {
+                Some(i) => Some(&mut self.entries[i].1),
+                None => None,
+            }
+        }
+
+        pub fn contains_key<Q: ?Sized + Eq>(&self, k: &Q) -> bool
+        where K: Borrow<Q> {
+            self.index_of(k).is_some()
+        }
+
+        pub fn remove<Q: ?Sized + Eq>(&mut self, k: &Q) -> Option<V>
+        where K: Borrow<Q> {
+            match self.index_of(k) {
+                Some(i) => Some(self.entries.remove(i).1),
+                None => None,
+            }
+        }
+
+        pub fn retain<F: FnMut(&K, &mut V) -> bool>(&mut self, mut f: F) {
+            self.entries.retain_mut(|e| f(&e.0, &mut e.1));
+        }
+
+        pub fn iter(&self) -> impl Iterator<Item = (&K, &V)> { self.entries.iter().map(|e| (&e.0, &e.1)) }
+
+        pub fn keys(&self) -> impl Iterator<Item = &K> { self.entries.iter().map(|e| &e.0) }
+
+        pub fn values(&self) -> impl Iterator<Item = &V> { self.entries.iter().map(|e| &e.1) }
+    }
+
+    impl<K: Eq, V> Extend<(K, V)> for HashMap<K, V> {
+        fn extend<I: IntoIterator<Item = (K, V)>>(&mut self, iter: I) {
+            for (k, v) in iter {
+                self.insert(k, v);
+            }
+        }
+    }
+
+    impl<K: Eq, V> FromIterator<(K, V)> for HashMap<K, V> {
+        fn from_iter<I: IntoIterator<Item = (K, V)>>(iter: I) -> Self {
+            let mut m = Self::new();
+            m.extend(iter);
+            m
+        }
+    }
+
+    impl<K, V> IntoIterator for HashMap<K, V> {
+        type IntoIter = std::vec::IntoIter<(K, V)>;
+        type Item = (K, V);
+
+        fn into_iter(self) -> Self::IntoIter { self.entries.into_iter() }
+    }
+
+    impl<'a, K, V> IntoIterator for &'a HashMap<K, V> {
+        type IntoIter = std::iter::Map<std::slice::Iter<'a, (K, V)>, fn(&'a (K, V)) -> (&'a K, &'a V)>;
+        type Item = (&'a K, &'a V);
+
+        fn into_iter(self) -> Self::IntoIter {
+            fn split<'b, K, V>(e: &'b (K, V)) -> (&'b K, &'b V) { (&e.0, &e.1) }
+            self.entries.iter().map(split as fn(&'a (K, V)) -> (&'a K, &'a V))
+        }
+    }
+
+    /// Equality as for a map: same key set, equal values (order-insensitive).
+    impl<K: Eq, V: PartialEq> PartialEq for HashMap<K, V> {
+        fn eq(&self, other: &Self) -> bool {
+            if self.entries.len() != other.entries.len() {
+                return false;
+            }
+            let mut i = 0;
+            while i < self.entries.len() {
+                match other.get(&self.entries[i].0) {
+                    Some(v) => {
+                        if *v != self.entries[i].1 {
+                            return false;
+                        }
+                    }
+                    None => return false,
+                }
+                i += 1;
+            }
+            true
+        }
+    }
+
+    impl<K: Eq, V: Eq> Eq for HashMap<K, V> {}
+
+    #[derive(Debug, Clone)]
+    pub struct HashSet<T> {
+        pub items: Vec<T>,
+    }
+
+    impl<T> Default for HashSet<T> {
+        fn default() -> Self { Self { items: Vec::new() } }
+    }
+
+    impl<T: Eq> HashSet<T> {
+        pub fn new() -> Self { Self { items: Vec::new() } }
+
+        pub fn len(&self) -> usize { self.items.len() }
+
+        pub fn is_empty(&self) -> bool { self.items.is_empty() }
+
+        pub fn contains<Q: ?Sized + Eq>(&self, k: &Q) -> bool
+        where T: Borrow<Q> {
+            let mut i = 0;
+            while i < self.items.len() {
+                if self.items[i].borrow() == k {
+                    return true;
+                }
+                i += 1;
+            }
+            false
+        }
+
+        pub fn insert(&mut self, v: T) -> bool {
+            if self.contains(&v) {
+                false
+            } else {
+                self.items.push(v);
+                true
+            }
+        }
+
+        pub fn iter(&self) -> std::slice::Iter<'_, T> { self.items.iter() }
+    }
+
+    impl<T: Eq> PartialEq for HashSet<T> {
+        fn eq(&self, other: &Self) -> bool {
+            if self.items.len() != other.items.len() {
+                return false;
+            }
+            let mut i = 0;
+            while i < self.items.len() {
+                if !other.contains(&self.items[i]) {
+                    return false;
+                }
+                i += 1;
+            }
+            true
+        }
+    }
+
+    impl<T: Eq> Eq for HashSet<T> {}
+}
